@@ -65,6 +65,12 @@ def observe(run, B=None, aborted=False):
     interp_ok, hats_ok = True, [True] * len(run.hats)
     detail = {}
     try:
+        # the fixed evaluation lattice is asked first (the previous observation ended with the same query: consecutive states see it back to
+        # back) and again at the end, after another query: within one state the two answers must agree
+        n0 = 2 ** (run.lmax0 + 1)
+        X0 = list(itertools.product(*[[run.a[d] + (run.b[d] - run.a[d]) * k / n0 for k in range(n0 + 1)] for d in range(D)]))
+        with impl.quiet(), impl.watchdog(120):
+            XV0 = np.asarray(c(X0), dtype=float)
         with impl.quiet(), impl.watchdog(120):
             vals = np.asarray(c(pts)) if pts else np.zeros((0, 2 + len(run.hats)))
         if pts:
@@ -81,6 +87,9 @@ def observe(run, B=None, aborted=False):
         XA = np.asarray(X)
         with impl.quiet(), impl.watchdog(120):
             XV = np.asarray(c(X))
+        if XV0.shape != np.asarray(XV, dtype=float).shape or not np.allclose(XV0, np.asarray(XV, dtype=float), rtol=0, atol=1e-12, equal_nan=True):
+            interp_ok = False
+            detail['stale'] = 'the interpolant at the fixed lattice differs between two calls in the same state (first call right after the previous state)'
         for j, h in enumerate(run.hats):
             exact = float(hat_integral(h, run.a, run.b))
             ok = abs(res[2 + j] - exact) <= 1e-10 * max(1.0, abs(exact))
